@@ -384,6 +384,69 @@ class KindFlow:
         return env
 
 
+def _fold_slice(ctx, R, slice_f, T_i):
+    from ..fold import Opaque
+    from ..terms import nf
+
+    m = ctx.model
+    init = m.func("darsia.image.coordinatesystem", "CoordinateSystem.__init__")
+    cutp, axp = slice_f.params[1], slice_f.params[2]
+    order = [p_ for p_ in slice_f.params[1:3]]
+    for d in (1, 2, 3):
+        for c, a in enumerate(CART[:d]):
+            row = T_i[(a, MAT[:d])]
+            if row[0] != "ret":
+                continue
+            pos = row[1][0]
+            ctx.instance(R + ".slice")
+            log = {}
+
+            def voxel(a2, k2, log=log, d=d):
+                log["pt"] = a2[0] if a2 else None
+                return [Opaque("int", f"VOX{k}") for k in range(d)]
+
+            def reduce(a2, k2, log=log):
+                log["axis"] = a2[1] if len(a2) > 1 else k2.get("axis")
+                return Obj("reduced", {})
+            # the coordinate system as its constructor leaves it (statements outside the folding language are skipped)
+            cs = Obj("cs")
+            img0 = Obj("img", {"indexing": MAT[:d], "space_dim": d, "voxel_size": [Opaque("float", f"h{k}") for k in range(d)], "origin": Opaque("ndarray", "ORIGIN"),
+                               "dimensions": [Opaque("float", f"D{k}") for k in range(d)], "img": Opaque("ndarray", "IMG", {"shape": tuple(Opaque("int", f"N{k}") for k in range(d))})})
+            f0 = Folder(symbolic=True)
+            f0.func_stack.append(init.node)
+            env0 = {init.params[0]: cs, (init.params[1] if len(init.params) > 1 else "img"): img0}
+            for st in init.node.body:
+                try:
+                    f0.stmt(st, env0)
+                except (Refuse, Raised):
+                    pass
+                except Exception:
+                    pass
+            cs.fields.update({"voxel": voxel, "axes": CART[:d], "dim": d, "indexing": MAT[:d]})
+            so = Obj("self", {"__class__": "Image", "space_dim": d, "indexing": MAT[:d], "coordinatesystem": cs, "img": Opaque("ndarray", "IMG"),
+                              "origin": Opaque("ndarray", "ORIGIN")})
+            fo = Folder(symbolic=True)
+            fo.func_stack.append(slice_f.node)
+            fo.overrides = {"darsia.reduce_axis": reduce}
+            args = {cutp: Opaque("float", "CUT"), axp: a}
+            try:
+                r = fo.call(slice_f.node, [so] + [args[p_] for p_ in order])
+            except (Refuse, Raised) as e:
+                ctx.ob(R, slice_f.qname, f"dim{d} axis {a!r}: slicing by Cartesian name addresses matrix axis {pos}", False, f"fold of Image.slice not found to be possible: {e}", slice_f.node)
+                continue
+            got_axis = log.get("axis")
+            got_img = nf(r.fields.get("img")) if isinstance(r, Obj) and "img" in r.fields else None
+            want_img = "IMG[" + ":, " * pos + f"VOX{pos}]"
+            if got_img is None or not isinstance(got_axis, int):
+                ctx.ob(R, slice_f.qname, f"dim{d} axis {a!r}: slicing by Cartesian name addresses matrix axis {pos}", False, f"reduction axis / data subscript not found in the fold ({got_axis!r}, {got_img!r})", slice_f.node)
+                continue
+            ctx.ob(R, slice_f.qname, f"dim{d} axis {a!r}: slicing by Cartesian name reduces matrix axis {pos} (the one the table assigns to {a!r})", got_axis == pos,
+                   f"reduce_axis is called with matrix axis {got_axis}; interpret_indexing({a!r}, {MAT[:d]!r}) gives {pos}", slice_f.node, evidence=True)
+            ctx.ob(R, slice_f.qname, f"dim{d} axis {a!r}: the data is cut on matrix axis {pos} at the voxel index of that axis", got_img == want_img,
+                   f"the slice is {got_img}; the table prescribes {want_img}", slice_f.node, evidence=bool(got_img and got_img.startswith("IMG[")))
+    ctx.floor(R + ".slice", 6)
+
+
 def rule_c(ctx, T_i):
     R = "C20.c"
     ctx.rule(R, "type-flow of axis values: a letter returned by to_matrix_indexing / to_cartesian_indexing "
@@ -432,6 +495,9 @@ def rule_c(ctx, T_i):
                 ctx.ob(R, slice_f.qname, f"the point `{holder}` that receives the physical cut is a float array of its own", alloc or conv,
                        f"`{holder} = {norm(dv)[:70]}` takes its dtype from image data: with an integer-typed origin the cut coordinate is truncated on the store" if from_data and not conv else "",
                        st, evidence=from_data and not conv)
+    # the whole method, folded per dimension and Cartesian axis on a symbolic image: the reduction and the data subscript must address the
+    # matrix axis the table assigns to the letter, at the voxel index the coordinate system returns for that matrix axis
+    _fold_slice(ctx, R, slice_f, T_i)
     # (2) AxisReduction.__init__: str and int branches agree
     ar = m.func("darsia.signals.reduction.dimensionreduction", "AxisReduction.__init__")
     ctx.consult(ar.module.name)
